@@ -32,6 +32,10 @@ def print(*a: Any, **kw: Any) -> None:  # noqa: A001
 
 VERIF = os.path.dirname(os.path.dirname(os.path.abspath(__file__)))
 EVIDENCE_DIR = os.path.join(VERIF, "evidence")
+if os.path.realpath(os.environ.get("GALLIA_SRC") or "/repo/src") != os.path.realpath("/repo/src"):
+    # a run against another source tree (sensitivity self-test with a seeded change) says nothing about /repo:
+    # its evidence goes to the git-ignored scratch area, never over the evidence of the tree under test
+    EVIDENCE_DIR = os.path.join(VERIF, "replays", "evidence-other-tree")
 REPLAY_DIR = os.path.join(VERIF, "replays")
 FINDINGS_FILE = os.path.join(VERIF, "known_findings.json")
 
